@@ -45,6 +45,13 @@ func (a *Application) proxyHandler(w http.ResponseWriter, r *http.Request) {
 		return
 	}
 
+	// model routing may have rejected the request (model listed nowhere: 404, listed only on
+	// unhealthy endpoints: 503): answer with that status instead of handing the proxy an empty list
+	if decision := routingRejection(pr, endpoints); decision != nil {
+		a.handleRoutingRejection(w, pr, decision)
+		return
+	}
+
 	a.logRequestStart(pr, len(endpoints))
 
 	// Strip the route prefix before forwarding to the backend.
@@ -299,6 +306,24 @@ func (a *Application) buildLogFields(pr *proxyRequest, duration time.Duration) [
 	}
 
 	return fields
+}
+
+// routingRejection returns the routing decision when model routing rejected the request and left no endpoint.
+func routingRejection(pr *proxyRequest, endpoints []*domain.Endpoint) *domain.ModelRoutingDecision {
+	if len(endpoints) > 0 || pr.profile == nil || pr.profile.RoutingDecision == nil {
+		return nil
+	}
+	decision := pr.profile.RoutingDecision
+	if decision.Action != ports.RoutingActionRejected || decision.StatusCode < http.StatusBadRequest {
+		return nil
+	}
+	return decision
+}
+
+// handleRoutingRejection reports a rejected routing decision to the client with the decision's status.
+func (a *Application) handleRoutingRejection(w http.ResponseWriter, pr *proxyRequest, decision *domain.ModelRoutingDecision) {
+	pr.requestLogger.Warn("Request rejected by model routing", "model", pr.model, "reason", decision.Reason, "status", decision.StatusCode)
+	http.Error(w, fmt.Sprintf("Model routing rejected request: %s", decision.Reason), decision.StatusCode)
 }
 
 func (a *Application) handleEndpointError(w http.ResponseWriter, pr *proxyRequest, err error) {
